@@ -8,7 +8,8 @@ use ross_protocol::packet::Packet;
 
 pub const SMALL_SIZES: [usize; 13] = [0, 1, 7, 8, 9, 13, 14, 15, 16, 21, 22, 56, 57];
 /// frame ids crossing 255 -> 256 (the id's high nibble moves into the header)
-pub const LARGE_SIZES: [usize; 4] = [1785, 1792, 1793, 1800];
+/// ... and payload lengths around 4096 / 8192 (16-bit length fields, 12-bit masks)
+pub const LARGE_SIZES: [usize; 8] = [1785, 1792, 1793, 1800, 4095, 4096, 4097, 8192];
 /// 4096 frames, the limit of the 12-bit frame id
 pub const HUGE_SIZES: [usize; 2] = [28665, 28672];
 
